@@ -23,7 +23,7 @@ RULE = ("file-backed SqliteStorage with lazy commit. Ground truth: every worker 
         "previous op kind)")
 ASSUMPTIONS = ["the age is measured from the latest operation that MAY have flushed (read, bucket op, multi-statement write, no-op "
                "write, or a single-statement write that came back fully committed): an upper bound on the real last flush",
-               "nothing is required of a write issued less than 12 s after that point; single-statement event writes must be fully committed on return, of a multi-statement write at least one elementary change must be",
+               "nothing is required of a write issued less than 12 s after that point; a write issued later - single event or batch (bulk inserts of 1-250 events, upserts of 1-4 entries with fresh events mixed in) - must be fully committed when the call returns",
                "process death only; the observer connection's view = what a crash at that instant leaves"]
 
 SCENARIOS = [
@@ -37,6 +37,8 @@ SCENARIOS = [
     ("upsert-after-idle", ["insert", "insert"], "upsert"),
     ("trickle", ["insert"], "insert"),
     ("delete-missing-after-idle", ["insert"], "delete_missing"),
+    ("big-bulk-after-idle", ["insert", "insert"], "bulk", 9),                    # 130 events: a full chunk of 100 and a tail
+    ("multi-upsert-after-idle", ["insert", "insert", "insert"], "upsert", 2),    # two rewrites and a fresh event in one call
 ]
 
 
@@ -84,10 +86,21 @@ def _op(kind, rng_pick=0):
     if kind == "insert":
         return dict(op="insert", b="b", ev=ev)
     if kind == "bulk":
-        _uid[0] += 2
-        return dict(op="bulk", b="b", evs=[ev, dict(ev, data={"uid": _uid[0] - 1}), dict(ev, data={"uid": _uid[0]})])
+        # sizes on both sides of the count threshold and of likely chunk sizes (a tail of 1-50 after a full chunk)
+        n = BULK_SIZES[rng_pick % len(BULK_SIZES)]
+        evs = []
+        for _ in range(n):
+            _uid[0] += 1
+            evs.append(dict(ev, ts=10**15 + _uid[0] * 1000, data={"uid": _uid[0]}))
+        return dict(op="bulk", b="b", evs=evs)
     if kind == "upsert":
-        return dict(op="upsert", b="b", items=[dict(ev=ev, pick=rng_pick)])
+        # 1-4 entries, rewrites of live events and (every third entry) a fresh event mixed in
+        items = []
+        for j in range(1 + rng_pick % 4):
+            _uid[0] += 1
+            items.append(dict(ev=dict(ev, ts=10**15 + _uid[0] * 1000, data={"uid": _uid[0]}),
+                              pick=None if (rng_pick // 4 + j) % 3 == 2 else rng_pick + 7 * j))
+        return dict(op="upsert", b="b", items=items)
     if kind == "read":
         return dict(op="read", b="b", how="get1")
     if kind == "delete_missing":
@@ -97,6 +110,7 @@ def _op(kind, rng_pick=0):
     return dict(op=kind, b="b", ev=ev, pick=rng_pick)
 
 
+BULK_SIZES = [3, 1, 2, 3, 5, 30, 51, 100, 101, 130, 250, 3, 3]
 SINGLE_STATEMENT_WRITES = ("insert", "replace", "replace_last", "delete")
 
 
@@ -141,14 +155,10 @@ def run_schedule(steps, ctx, clock, sleeper):
             else:
                 flushed = committed == hr.view
                 if done is not None and changed and kind != "read" and age >= PAUSE:
-                    if single:
-                        ok = flushed
-                    else:
-                        # a multi-statement write may legitimately flush in the middle (the rest is then young data),
-                        # but whichever of its elementary writes was issued first was issued at age >= 12 s and must
-                        # be durable on return: at least one of the op's row changes has to be committed
-                        added, removed = hr.view - view_before, view_before - hr.view
-                        ok = any(r in committed for r in added) or any(r not in committed for r in removed)
+                    # "an event write issued more than about ten seconds after the previous flush is itself made durable
+                    # before it returns": the write is the call the client made - a whole batch included - so nothing the
+                    # writer can see may be missing from the committed state when the call returns
+                    ok = flushed
                     judged.append((ok, dict(clock=clock, write=kind + ("" if single else "(multi)"), pause=pause, age=round(age, 1),
                                             pending_before=pending, prev=prev_kind, missing_rows=len(hr.view ^ committed),
                                             trickle=pause < PAUSE)))
@@ -192,13 +202,14 @@ def worker(ctx):
     rounds = ctx.extra.get("real_rounds", 1)
     trusted = True
     for rnd in range(rounds):
-        name, pre, final = SCENARIOS[(ctx.widx + rnd * 7) % len(SCENARIOS)]
+        name, pre, final, *fp = SCENARIOS[(ctx.widx + rnd * 7) % len(SCENARIOS)]
+        final_pick = fp[0] if fp else ctx.widx
         pause = PAUSE if rnd == 0 else PAUSE + 1 + (ctx.widx * 7 + rnd * 5) % 18
-        steps = [(0, _op(k, i)) for i, k in enumerate(pre)] + [(pause, _op(final, ctx.widx))]
+        steps = [(0, _op(k, i)) for i, k in enumerate(pre)] + [(pause, _op(final, final_pick))]
         if name == "trickle":
             # no single pause reaches ten seconds, but the second write is ~13 s younger than the last flush
             steps = [(0, _op("insert")), (pause / 2 + 0.5, _op("insert")), (pause / 2 + 0.5, _op("insert"))]
-        case = dict(kind="real", scenario=name, pause_s=pause, ops=[s[1]["op"] for s in steps])
+        case = dict(kind="real", scenario=name, pause_s=pause, ops=[s[1]["op"] for s in steps], final_pick=final_pick)
         uninstall_virtual_clock()
         real = run_schedule(steps, ctx, "real", _real_sleeper)
         v = _record(ctx, real, case, "real_pauses_judged")
@@ -219,7 +230,7 @@ def worker(ctx):
     rng = ctx.rng
     try:
         while ctx.more():
-            steps = []
+            steps, plan_ = [], []
             for i in range(rng.randrange(2, 30)):
                 kind = rng.choice(["insert", "insert", "insert", "bulk", "replace", "replace_last", "delete", "upsert", "read",
                                    "delete_missing", "fail:upsert_unbindable", "fail:insert_unserializable", "fail:create_existing",
@@ -227,8 +238,10 @@ def worker(ctx):
                 pause = rng.choice([0, 0, 0, 0.5, 3, 9, 10.5, 11.5, 12, 12.5, 15, 60, 3600, 86399, 86400, 86400, 86404, 86409.5,
                                     86411, 2 * 86400 + 3, 7 * 86400, 30 * 86400 + 6 * 3600, 365 * 86400 + 1,
                                     rng.randrange(12, 40 * 86400) + rng.random()])
-                steps.append((pause, _op(kind, rng.randrange(1000))))
-            case = dict(kind="virtual", schedule=[(p, s["op"]) for p, s in steps])
+                pk = rng.randrange(1000)
+                plan_.append((pause, kind, pk))
+                steps.append((pause, _op(kind, pk)))
+            case = dict(kind="virtual", schedule=[(p, k, pk) for p, k, pk in plan_])
             judged = run_schedule(steps, ctx, "virtual", _virtual_sleeper)
             v = _record(ctx, judged, case, "virtual_pauses_judged")
             ctx.record(case, v, sig=None, nontrivial=bool(judged), weight=max(1, len(judged)))
@@ -241,12 +254,12 @@ def run_case(case, ctx):
     if case["kind"] == "real":
         uninstall_virtual_clock()
         ops = case["ops"]
-        steps = [(0, _op(k, i)) for i, k in enumerate(ops[:-1])] + [(case["pause_s"], _op(ops[-1], 0))]
+        steps = [(0, _op(k, i)) for i, k in enumerate(ops[:-1])] + [(case["pause_s"], _op(ops[-1], case.get("final_pick", 0)))]
         judged = run_schedule(steps, ctx, "real", _real_sleeper)
         return _record(ctx, judged, case, "real_pauses_judged"), dict(sig=None, nontrivial=True)
     install_virtual_clock()
     try:
-        steps = [(p, _op(k, i)) for i, (p, k) in enumerate(case["schedule"])]
+        steps = [(s[0], _op(s[1], s[2] if len(s) > 2 else i)) for i, s in enumerate(case["schedule"])]
         judged = run_schedule(steps, ctx, "virtual", _virtual_sleeper)
         return _record(ctx, judged, case, "virtual_pauses_judged"), dict(sig=None, nontrivial=True)
     finally:
